@@ -59,7 +59,7 @@ def run_strategy_case(ctx, kind_, idx):
     adaptive = "Adaptive" in strat
     n = R.gen_n(rng)
     kw, a = R.gen_params(rng, strat, n, smooth_free=False, exp_hi=4.0)
-    x, y, meta = R.gen_series(rng, 2, 40, ties_share=0.0 if adaptive else 0.3, real_valued=adaptive)
+    x, y, meta = R.gen_series(rng, 2, 40, ties_share=0.0 if adaptive else 0.3, real_valued=adaptive, long_share=R.LONG_SHARE)
     if rng.uniform() < 0.6 and meta["xcls"] in ("uniform", "integer", "epoch"):
         from .. import gen
         x, meta["xcls"] = gen.gen_x(rng, len(x), "nonuniform")
